@@ -85,6 +85,23 @@ def r2_arguments(ctx):
         good &= elig and from_live
     ctx.ob("C08.R2", "list-filled-from-eligible-live-tasks", good,
            "runnable_tasks is pushed to only under runnable()/can_spuriously_wakeup() and only with tasks taken from live_tasks (%d push sites)" % len(pushes), loc=sch.loc())
+    # ascending id order: live_tasks is kept in creation (= id) order (C01.R5), so the offered list is ascending iff it is filled by ONE
+    # in-order pass over live_tasks; a second pass that appends (e.g. the spuriously wakeable tasks after the runnable ones) breaks the order
+    nexts = [x for x, tt in sch.calls() if any(c.endswith("Iterator>::next") or c.endswith("Iterator::next") for c in sch.callees_of_call(tt, passed=False))
+             and ("field:" + E + "ExecutionState.live_tasks") in sl.slice_operand(tt["args"][0])[0]]
+    loops = set()
+    for x in pushes:
+        hs = [n for n in nexts if sch.site_dominates(n, x) and sch.path_exists(x, lambda y, n=n: y == n) is not None]
+        loops.add(tuple(sorted(hs, key=lambda n: (n.bb, n.idx))[-1:]))
+    # bulk additions (extend / append / insert ...) are a pass of their own that this rule cannot order against the loop
+    import re as _re
+    from rules.c18 import _calls_on_field
+    bulk = [x for x, tt in _calls_on_field(prog, sch, RUN, _re.compile(r"Vec::(extend|extend_from_slice|append|insert|splice|resize|resize_with|extend_from_within)$|Extend>::extend$"))]
+    one_pass = bool(pushes) and len(loops) == 1 and loops != {()} and not bulk
+    ctx.ob("C08.R2", "list-filled-in-one-ordered-pass", one_pass,
+           "every push onto runnable_tasks happens in the same single pass over live_tasks (ascending ids)" if one_pass else
+           "runnable_tasks is filled by %d different passes over live_tasks (or outside any): tasks appended by a later pass come after higher ids, "
+           "so the list handed to the scheduler is no longer in ascending id order" % len(loops), loc=sch.loc(pushes[0]) if pushes else sch.loc())
     w = kinds.writers_of_field(prog, RUN, {"shuttle_engine"}, kinds=("assign", "refmut", "call_dst"))
     kinds.check_who_may(ctx, "C08.R2", "mutator of ExecutionState.runnable_tasks", set(w), {ES + "schedule"})
     clears = [x for x, tt in sch.calls() if "alloc::vec::Vec::clear" in sch.callees_of_call(tt, passed=False)]
